@@ -146,6 +146,28 @@ class Host(object):
         that has no WasmPluginFn handler (true for every builtin when no system plugin is loaded):
         void -> nothing; `*intercept*` with >=2 params and first param type == result type -> params passed through;
         otherwise the zero value of the result type."""
+        h = getattr(self, 'plugin_handlers', {}).get(name)
+        if h is not None:
+            # STUB of the standard trampoline of WasmRuntime::register_plugin_functions WITH a handler (wasmtime Val level):
+            # decode_trampoline_args: F64 -> the float, I64 / I32 -> `i as f64`; void: call for side effects; otherwise
+            # Some(r) -> r converted by the declared return type (I64: r as i64, I32: r as i32, else the f64 bits)
+            it = self.it
+            it.models.note('STUB plugin trampoline (handler): ' + name)
+            args = []
+            for a, pt in zip(margs[1:], f.params):
+                if pt == 'f64':
+                    args.append(a if a.t == 'f64' else Sc('f64', it.smt.fp_from_bits(a.v)))
+                else:
+                    args.append(it.cast(Sc('i64' if pt == 'i64' else 'i32', a.v), 'f64', 'IntToFloat', None))
+            r = it.call_value(h, [Slice(args, 0, len(args))], None)
+            if not f.results:
+                return UNIT
+            if r.variant == 1:
+                v = r.fields[0]
+                rt = f.results[0]
+                if rt == 'f64':
+                    return v
+                return it.float_to_int(v, 'i64' if rt == 'i64' else 'i32')
         self.it.models.note('STUB plugin trampoline (no handler): ' + name)
         if not f.results:
             return UNIT
